@@ -104,6 +104,9 @@ def wire_manager_contracts(plan, tier):
     def frame(o, nw):
         return And(nw.self._algo_wires == o.self._algo_wires, nw.self.tight_budget == o.self.tight_budget)
 
+    def wm_same(o, nw):
+        return And(nw.self.zeroed == o.self.zeroed, nw.self.any_state == o.self.any_state, frame(o, nw))
+
     def native_ctor(mod, a):
         a["self"] = mod.WireResourceManager(a["zeroed"], a["any_state"], a["algo_wires"], a["tight_budget"])
         return None
@@ -114,20 +117,24 @@ def wire_manager_contracts(plan, tier):
     def free_fails(o):
         return o.num_wires > o.self.any_state
 
+    def unchanged_on_exception(exc, o, nw):
+        """a rejected allocation / release leaves the manager exactly as it was (in particular the invariant still holds)"""
+        return And(nw.self.zeroed == o.self.zeroed, nw.self.any_state == o.self.any_state, frame(o, nw), inv(nw.self))
+
     contracts = [
         FnContract(w, "WireResourceManager.__init__", [
             Case("", {"self": WM, "zeroed": Int, "any_state": Int, "algo_wires": Int, "tight_budget": Bool}, native_call=native_ctor,
                  ensures=lambda o, r, nw: And(nw.self.zeroed == o.zeroed, nw.self.any_state == o.any_state,
                                               nw.self._algo_wires == o.algo_wires, nw.self.tight_budget == o.tight_budget))]),
         GetterContract(w, "WireResourceManager.algo_wires", [
-            Case("getter", {"self": WM}, ensures=lambda o, r, nw: r == o.self._algo_wires)]),
+            Case("getter", {"self": WM}, ensures=lambda o, r, nw: And(r == o.self._algo_wires, wm_same(o, nw)))]),
         FnContract(w, "WireResourceManager.algo_wires", [
             Case("setter", {"self": WM, "count": Int},
                  ensures=lambda o, r, nw: And(nw.self._algo_wires == o.count, nw.self.zeroed == o.self.zeroed,
                                               nw.self.any_state == o.self.any_state, nw.self.tight_budget == o.self.tight_budget))],
                    setter=True),
         FnContract(w, "WireResourceManager.total_wires", [
-            Case("sum", {"self": WM}, ensures=lambda o, r, nw: r == total(o.self)),
+            Case("sum", {"self": WM}, ensures=lambda o, r, nw: And(r == total(o.self), wm_same(o, nw))),
             # reported wire total is at least the algorithmic wires (under the representation invariant)
             Case("total>=algo", {"self": WM}, requires=lambda a: inv(a.self),
                  ensures=lambda o, r, nw: And(r >= o.self._algo_wires, r - o.self._algo_wires == o.self.zeroed + o.self.any_state))]),
@@ -140,16 +147,18 @@ def wire_manager_contracts(plan, tier):
                      nw.self.zeroed == If(o.num_wires > o.self.zeroed, 0, o.self.zeroed - o.num_wires),
                      nw.self.zeroed + nw.self.any_state == mx(o.self.zeroed, o.num_wires) + o.self.any_state,
                      total(nw.self) >= total(o.self), frame(o, nw)),
-                 raises={"ValueError": grab_fails}, must_return=lambda o: Not(grab_fails(o)))]),
+                 raises={"ValueError": grab_fails}, must_return=lambda o: Not(grab_fails(o)), exc_ensures=unchanged_on_exception)]),
         FnContract(w, "WireResourceManager.free_wires", [
             Case("num_wires>=0", {"self": WM, "num_wires": Int}, requires=lambda a: And(inv(a.self), a.num_wires >= 0),
                  ensures=lambda o, r, nw: And(
                      inv(nw.self), Not(free_fails(o)),
                      nw.self.any_state == o.self.any_state - o.num_wires, nw.self.zeroed == o.self.zeroed + o.num_wires,
                      total(nw.self) == total(o.self), frame(o, nw)),
-                 raises={"ValueError": free_fails}, must_return=lambda o: Not(free_fails(o)))]),
+                 raises={"ValueError": free_fails}, must_return=lambda o: Not(free_fails(o)), exc_ensures=unchanged_on_exception)]),
     ]
     for fc in contracts:
+        for c in fc.cases:
+            c.standin_on_unsupported = True
         plan.fn_under_contract(fc.world.file, fc.qualname)
         for ob in obligations_for("C47", fc, tier):
             plan.add(ob)
@@ -228,13 +237,37 @@ def resources_contracts(plan, tier):
 
     def frame2(o, nw):
         """the operands are not modified"""
+        def same_keys(a, b):
+            if isinstance(a, MapV) and isinstance(b, MapV):
+                return z3.Select(a.dom, G0) == z3.Select(b.dom, G0)          # at an arbitrary key: the key SETS agree
+            return set(a) == set(b)
+
         def same(x, y):
             return And(x.zeroed_wires == y.zeroed_wires, x.any_state_wires == y.any_state_wires, x.algo_wires == y.algo_wires,
-                       forall_keys(lambda g: cnt_of(x.gate_types, g) == cnt_of(y.gate_types, g), x.gate_types, y.gate_types))
+                       forall_keys(lambda g: cnt_of(x.gate_types, g) == cnt_of(y.gate_types, g), x.gate_types, y.gate_types),
+                       same_keys(x.gate_types, y.gate_types))
         r = same(nw.self, o.self)
         if hasattr(o, "other") and hasattr(o.other, "gate_types"):
             r = And(r, same(nw.other, o.other))
         return r
+
+    def nonneg_gen(rng, m):
+        """generated inputs of the counts >= 0 cases satisfy their precondition (solver models are passed through)"""
+        if rng is None:
+            return m
+        fix = lambda d: dict(d, gate_types={"__map__": [[k, abs(v)] for k, v in d["gate_types"]["__map__"]]}) if isinstance(d, dict) and "gate_types" in d else d
+        return {k: fix(v) for k, v in m.items()}
+
+    def fresh_result(r, nw):
+        """the result owns its dictionary: later updates of the result or of an operand cannot leak into the other"""
+        ok = r is not nw.self and r.gate_types is not nw.self.gate_types
+        if hasattr(nw, "other") and hasattr(nw.other, "gate_types"):
+            ok = ok and r is not nw.other and r.gate_types is not nw.other.gate_types
+        return ok
+
+    def exc_frame(exc, o, nw):
+        """an argument that is rejected leaves the operands untouched"""
+        return frame2(o, nw)
 
     contracts = []
     for lab, gt in (("gate_types:defaultdict", GT), ("gate_types:dict", MapT(Label, Int)), ("gate_types:None", T("const", None))):
@@ -244,25 +277,30 @@ def resources_contracts(plan, tier):
                  ensures=lambda o, r, nw: And(nw.self.zeroed_wires == o.zeroed_wires, nw.self.any_state_wires == o.any_state_wires,
                                               nw.self.algo_wires == o.algo_wires,
                                               forall_keys(lambda g: cnt_of(nw.self.gate_types, g) == cnt_of(o.gate_types, g),
-                                                          nw.self.gate_types, o.gate_types)))]))
+                                                          nw.self.gate_types, o.gate_types),
+                                              # the object owns a COPY of the table it was given, and the given table is unchanged
+                                              nw.gate_types is None or nw.self.gate_types is not nw.gate_types,
+                                              forall_keys(lambda g: cnt_of(nw.gate_types, g) == cnt_of(o.gate_types, g), nw.gate_types, o.gate_types)))]))
     for name, wires in (("add_series", wires_series), ("add_parallel", wires_parallel)):
         contracts.append(FnContract(w, f"Resources.{name}", [
             # the property: counts of the combination are the sums of the counts of the parts (counts are numbers of gates: >= 0)
-            Case("other:Resources[counts>=0]", {"self": RES, "other": RES}, native_call=native_method(name),
+            Case("other:Resources[counts>=0]", {"self": RES, "other": RES}, native_call=native_method(name), native_gen=nonneg_gen,
                  requires=lambda a: And(nonneg(a.self.gate_types), nonneg(a.other.gate_types)),
-                 ensures=lambda o, r, nw, wires=wires: And(wires(o, r), gates_sum(o, r), frame2(o, nw))),
+                 ensures=lambda o, r, nw, wires=wires: And(wires(o, r), gates_sum(o, r), frame2(o, nw), fresh_result(r, nw))),
             # exact behaviour on arbitrary integers (collections.Counter addition keeps positive sums only)
             Case("other:Resources[any counts]", {"self": RES, "other": RES}, native_call=native_method(name),
-                 ensures=lambda o, r, nw, wires=wires: And(wires(o, r), gates_sum_clipped(o, r), frame2(o, nw))),
-            Case("other:int", {"self": RES, "other": Int}, native_call=native_method(name), raises={"TypeError": lambda o: True}),
+                 ensures=lambda o, r, nw, wires=wires: And(wires(o, r), gates_sum_clipped(o, r), frame2(o, nw), fresh_result(r, nw))),
+            Case("other:int", {"self": RES, "other": Int}, native_call=native_method(name), raises={"TypeError": lambda o: True},
+                 exc_ensures=exc_frame),
         ]))
     for name, algo in (("multiply_series", lambda o: o.self.algo_wires), ("multiply_parallel", lambda o: o.self.algo_wires * o.scalar)):
         contracts.append(FnContract(w, f"Resources.{name}", [
             Case("scalar:int", {"self": RES, "scalar": Int}, native_call=native_method(name),
                  ensures=lambda o, r, nw, algo=algo: And(r.zeroed_wires == o.self.zeroed_wires,
                                                          r.any_state_wires == o.self.any_state_wires * o.scalar,
-                                                         r.algo_wires == algo(o), gates_scaled(o, r), frame2(o, nw))),
-            Case("scalar:float", {"self": RES, "scalar": Float}, native_call=native_method(name), raises={"TypeError": lambda o: True}),
+                                                         r.algo_wires == algo(o), gates_scaled(o, r), frame2(o, nw), fresh_result(r, nw))),
+            Case("scalar:float", {"self": RES, "scalar": Float}, native_call=native_method(name), raises={"TypeError": lambda o: True},
+                 exc_ensures=exc_frame),
         ]))
     contracts.append(FnContract(w, "Resources.total_wires", [
         Case("sum", {"self": RES}, ensures=lambda o, r, nw: r == o.self.zeroed_wires + o.self.any_state_wires + o.self.algo_wires),
@@ -365,6 +403,27 @@ class _Universe:
 UNIVERSE = _Universe()
 
 
+def spec_tables(tokens, mags, count):
+    """replay data of a decomposition shape: U0 decomposes into the given actions, the gate is the leaf `Toffoli` (U4)"""
+    acts = [("G", N_UNIVERSE - 1, count) if t == "G" else (t[0], mags[t[1]]) for t in tokens]
+    return {"tables": [acts] + [[] for _ in range(N_UNIVERSE - 1)], "mags": dict(mags)}
+
+
+class DecompSpec:
+    """a decomposition of CONCRETE shape with symbolic magnitudes, handed to the function in the place of `config` (which the code
+    only forwards to the decomposition lookup)"""
+
+    def __init__(self, tokens, mags, leaf, count, actions):
+        self.tokens, self.mags, self.leaf, self.count, self.actions = tokens, mags, leaf, count, actions
+
+    def snapshot(self):
+        return self
+
+    def concretize_value(self, world, model):
+        ev = lambda t: model.eval(t, model_completion=True).as_long()
+        return spec_tables(self.tokens, {k: ev(v) for k, v in self.mags.items()}, ev(self.count))
+
+
 def CRO_DATA(i):
     return {"__class__": "CompressedResourceOp", "op_type": U_NAMES[i], "num_wires": 1, "params": "P", "_name": U_NAMES[i]}
 
@@ -407,6 +466,8 @@ def estimate_contracts(plan, tier):
         """_get_resource_decomposition(op, config): ABSTRACT -- an uninterpreted function of the operator (config is fixed during
         one estimate) into action sequences of symbolic length; it may also fail (operator without decomposition)"""
         op = args[0]
+        if len(args) > 1 and isinstance(args[1], DecompSpec):
+            return args[1].actions          # size-bounded cases: the decomposition (concrete shape, symbolic magnitudes) is an input
         if it.ctx.branch(z3.Bool(it.ctx.fresh_name("decomposition_undefined"))):
             raise RaiseExc("ResourcesUndefinedError")
         it.ctx.havocked = True
@@ -552,6 +613,8 @@ def estimate_contracts(plan, tier):
     # callee contracts ------------------------------------------------------------------------------------------------------------------
     def mc_sum_alloc(it, args, kw):
         (d,) = args
+        if isinstance(d, PyList):           # a decomposition of concrete shape: the real body is executed
+            return it.call_user(w.functions["_sum_allocated_wires"], [d], {}, None, qual=None)
         return ALLOC(d.term, z3.Length(d.term))
 
     def mc_update(it, args, kwargs):
@@ -560,12 +623,14 @@ def estimate_contracts(plan, tier):
         env = it.bind(w.functions["_update_counts_from_compressed_res_op"], args, kwargs)
         op, gcd, wm, gs, scalar = env["comp_res_op"], env["gate_counts_dict"], env["wire_manager"], env["gate_set"], env["scalar"]
         ctx = it.ctx
+        opt, gst, sc = it.world.box(op, CRO), gs_term(gs), S._t(scalar)
         k = z3.Int(ctx.fresh_name("callee_outcome"))
         if ctx.branch(k == 0):
+            ctx.assume(z3.Not(z3.Select(gst, name_of(opt))))        # an operator of the gate set is only counted: no exception
             raise RaiseExc("ValueError")
         if ctx.branch(k == 1):
+            ctx.assume(z3.Not(z3.Select(gst, name_of(opt))))
             raise RaiseExc("ResourcesUndefinedError")
-        opt, gst, sc = it.world.box(op, CRO), gs_term(gs), S._t(scalar)
         kk = z3.Const("uk", KEYs)
         old_val, old_dom = gcd.val, gcd.dom
         gcd.val = z3.Lambda([kk], z3.Select(old_val, kk) + sc * CNT(opt, gst, kk))
@@ -574,6 +639,8 @@ def estimate_contracts(plan, tier):
         z0, a0 = wm.zeroed, wm.any_state
         wm.f["zeroed"], wm.f["any_state"] = z3.Int(ctx.fresh_name("zeroed_after_call")), z3.Int(ctx.fresh_name("any_after_call"))
         ctx.assume(z3.Implies(pre_w, z3.And(wm.zeroed >= 0, wm.any_state >= 0, wm.zeroed + wm.any_state >= z0 + a0)))
+        # an operator of the gate set is counted and nothing else happens: the wire manager is untouched
+        ctx.assume(z3.Implies(z3.Select(gst, name_of(opt)), z3.And(wm.zeroed == z0, wm.any_state == a0)))
         return None
     w.modular["_sum_allocated_wires"] = mc_sum_alloc
     w.modular["_update_counts_from_compressed_res_op"] = mc_update
@@ -607,6 +674,18 @@ def estimate_contracts(plan, tier):
         gs = n_gate_set(o.gate_set)
         keys = keys_of(nw.gate_counts_dict, o.gate_counts_dict, n_universe_keys())
         return all(nw.gate_counts_dict.get(g, 0) == o.gate_counts_dict.get(g, 0) + o.scalar * n_cnt(nw.comp_res_op, gs, g) for g in keys)
+
+    def in_gate_set_frame(o, nw):
+        """an operator that is in the gate set leaves the wire manager untouched"""
+        same = And(nw.wire_manager.zeroed == o.wire_manager.zeroed, nw.wire_manager.any_state == o.wire_manager.any_state)
+        if sym(o.comp_res_op):
+            return Implies(z3.Select(gs_term(o.gate_set), o.comp_res_op._name), same)
+        return same if nw.comp_res_op.name in n_gate_set(o.gate_set) else True
+
+    def in_gate_set(o):
+        if sym(o.comp_res_op):
+            return z3.Select(gs_term(o.gate_set), o.comp_res_op._name)
+        return o.comp_res_op.name in n_gate_set(o.gate_set)
 
     def upd_wires_pre(a):
         if sym(a.comp_res_op):
@@ -654,16 +733,146 @@ def estimate_contracts(plan, tier):
                 if not wires:
                     # gate counts: no assumption on signs, on the wire manager or on the decompositions
                     cases.append(Case(f"gate-counts[{gl}]", params, native_call=native_update, native_gen=gen_update(gt.kind == "set"),
-                                      ensures=lambda o, r, nw: And(upd_counts_post(o, nw), wm_frame(nw.wire_manager, o.wire_manager)),
-                                      raises=any_exc, axioms=upd_post_axioms, loops={0: ls}))
+                                      ensures=lambda o, r, nw: And(upd_counts_post(o, nw), wm_frame(nw.wire_manager, o.wire_manager),
+                                                                   in_gate_set_frame(o, nw)),
+                                      raises=any_exc, must_return=in_gate_set, axioms=upd_post_axioms, loops={0: ls}))
                 else:
                     cases.append(Case(f"wire-bookkeeping[{gl}]", params, native_call=native_update, native_gen=gen_update(gt.kind == "set"),
                                       requires=upd_wires_pre,
                                       ensures=lambda o, r, nw: And(inv_wm(nw.wire_manager), total(nw.wire_manager) >= total(o.wire_manager),
                                                                    wm_frame(nw.wire_manager, o.wire_manager)),
-                                      raises=any_exc, axioms=upd_post_axioms, loops={0: ls}))
+                                      raises=any_exc, must_return=in_gate_set, axioms=upd_post_axioms, loops={0: ls}))
         return cases
-    fc_upd = FnContract(w, "_update_counts_from_compressed_res_op", upd_cases())
+    # ---- exact wire effect of a repeated operation (SIZE-BOUNDED in the shape of the decomposition, symbolic magnitudes) ------------------
+    # Property: processing `scalar * op` leaves the wire manager in the state reached by processing op `scalar` times in sequence.
+    # The sequential state has a closed form for decompositions that only allocate, only release, or allocate and release the same
+    # amount (lemmas wire-repeat/* below are the induction steps over the grab_zeroed / free_wires contracts).
+    EFFECT_SHAPES = {"alloc": ["A0"], "alloc-alloc": ["A0", "A1"], "alloc-gate": ["A0", "G"], "release": ["D0"],
+                     "release-release": ["D0", "D1"], "gate-release": ["G", "D0"], "balanced": ["A0", "D0"],
+                     "balanced-around-gate": ["A0", "G", "D0"], "balanced-nested": ["A0", "A1", "D1", "D0"]}
+
+    def shape_kind(tokens):
+        acts = [t for t in tokens if t != "G"]
+        if all(t[0] == "A" for t in acts):
+            return "alloc"
+        if all(t[0] == "D" for t in acts):
+            return "release"
+        return "balanced"
+
+    def mk_spec(tokens):
+        def mk(ctx, name):
+            mags = {t[1]: z3.Int(ctx.fresh_name(f"{name}.m{t[1]}")) for t in tokens if t != "G"}
+            leaf = fresh(ctx, CRO, f"{name}.leaf")
+            cnt = z3.Int(ctx.fresh_name(f"{name}.count"))
+            acts = []
+            for t in tokens:
+                if t == "G":
+                    acts.append(Rec(w.classes["GateCount"], {"gate": leaf, "count": cnt}))
+                else:
+                    acts.append(Rec(w.classes["Allocate" if t[0] == "A" else "Deallocate"], {"num_wires": mags[t[1]]}))
+            return DecompSpec(tokens, mags, leaf, cnt, PyList(acts))
+        return mk
+
+    def gen_spec(tokens):
+        def gen(rng):
+            mags = {t[1]: rng.choice([0, 1, 2, 3]) for t in tokens if t != "G"}
+            return spec_tables(tokens, mags, rng.choice([0, 1, 2]))
+        return gen
+
+    def magnitudes(cfg, tokens):
+        """(total allocated, total released, list of magnitudes) of one repetition"""
+        if isinstance(cfg, DecompSpec):
+            get = lambda t: cfg.mags[t[1]]
+        else:
+            get = lambda t: cfg["mags"][t[1]]
+        al = [get(t) for t in tokens if t[0] == "A"]
+        de = [get(t) for t in tokens if t[0] == "D"]
+        return al, de
+
+    def tot(xs):
+        r = 0
+        for x in xs:
+            r = r + x
+        return r
+
+    def effect_fails(tokens):
+        kind = shape_kind(tokens)
+
+        def fails(o):
+            al, de = magnitudes(o.config, tokens)
+            wm, k = o.wire_manager, o.scalar
+            if kind == "alloc":
+                return And(wm.tight_budget, tot(al) * k > wm.zeroed)
+            if kind == "release":
+                return tot(de) * k > wm.any_state
+            return And(wm.tight_budget, tot(al) > wm.zeroed)
+        return fails
+
+    def effect_pre(tokens):
+        def pre(a):
+            al, de = magnitudes(a.config, tokens)
+            r = And(inv_wm(a.wire_manager), a.scalar >= 1, *[m >= 0 for m in al + de])
+            if isinstance(a.config, DecompSpec):
+                r = And(r, z3.Select(gs_term(a.gate_set), a.config.leaf._name), z3.Not(z3.Select(gs_term(a.gate_set), a.comp_res_op._name)))
+            return r
+        return pre
+
+    def effect_post(tokens):
+        kind = shape_kind(tokens)
+
+        def post(o, r, nw):
+            al, de = magnitudes(o.config, tokens)
+            wm0, wm1, k = o.wire_manager, nw.wire_manager, o.scalar
+            if kind == "alloc":           # k sequential rounds of grabs == one grab of k times the amount
+                exp_z, exp_a = mx(wm0.zeroed - tot(al) * k, 0), wm0.any_state + tot(al) * k
+            elif kind == "release":       # k sequential rounds of releases
+                exp_z, exp_a = wm0.zeroed + tot(de) * k, wm0.any_state - tot(de) * k
+            else:                          # borrowed wires are given back: every round after the first reuses them
+                exp_z, exp_a = mx(wm0.zeroed, tot(al)), wm0.any_state
+            ok = And(wm1.zeroed == exp_z, wm1.any_state == exp_a, wm_frame(wm1, wm0), Not(effect_fails(tokens)(o)))
+            if not sym(o.comp_res_op):
+                ok = ok and sequential_reference(o, nw)
+            return ok
+        return post
+
+    def sequential_reference(o, nw):
+        """REPLAY: the property itself -- run the real function `scalar` times with scalar = 1 on a copy of the initial manager"""
+        import copy
+        import importlib
+        from collections import defaultdict
+        mod = importlib.import_module("pennylane.estimator.estimate")
+        ref = copy.deepcopy(o.wire_manager)
+        try:
+            for _ in range(o.scalar):
+                mod._update_counts_from_compressed_res_op(nw.comp_res_op, defaultdict(int), ref, nw.gate_set, 1, None)
+        except ValueError:
+            return False
+        return (ref.zeroed, ref.any_state, ref.algo_wires) == (nw.wire_manager.zeroed, nw.wire_manager.any_state, nw.wire_manager.algo_wires)
+
+    def gen_effect(tokens):
+        def gen(rng, m):
+            import random
+            cfg = m.get("config") if isinstance(m.get("config"), dict) and "tables" in m.get("config", {}) else None
+            r2 = rng or random.Random(repr(sorted(m.items(), key=str)))
+            if cfg is None or rng is not None:
+                cfg = gen_spec(tokens)(r2)
+            wm = m.get("wire_manager") if isinstance(m.get("wire_manager"), dict) and rng is None else None
+            if wm is None:
+                wm = {"__class__": "WireResourceManager", "zeroed": r2.randint(0, 6), "any_state": r2.randint(0, 6), "_algo_wires": 2,
+                      "tight_budget": r2.random() < 0.3}
+            sc = m.get("scalar") if isinstance(m.get("scalar"), int) and rng is None else r2.randint(1, 4)
+            return {"comp_res_op": CRO_DATA(0), "gate_counts_dict": {"__map__": []}, "wire_manager": wm, "gate_set": {"__set__": ["Toffoli"]},
+                    "scalar": sc, "config": cfg}
+        return gen
+    effect_cases = []
+    for nm, tokens in EFFECT_SHAPES.items():
+        effect_cases.append(Case(f"wire-effect-of-repetition[{nm}]",
+                                 {"comp_res_op": CRO, "gate_counts_dict": GCD, "wire_manager": WM, "gate_set": SetT(Label), "scalar": Int,
+                                  "config": T("build", mk_spec(tokens), gen=gen_spec(tokens))},
+                                 size_bounded=True, native_call=native_update, native_gen=gen_effect(tokens),
+                                 requires=effect_pre(tokens), ensures=effect_post(tokens),
+                                 raises={"ValueError": effect_fails(tokens)}, must_return=lambda o, tokens=tokens: Not(effect_fails(tokens)(o))))
+    fc_upd = FnContract(w, "_update_counts_from_compressed_res_op", upd_cases() + effect_cases)
 
     def realize_cro(fields):
         import importlib
@@ -712,6 +921,16 @@ def estimate_contracts(plan, tier):
     def n_wsum(workflow, gs, g):
         return sum(c * n_cnt(op, gs, g) for op, c in workflow.gate_types.items())
 
+    def rfr_frame(o, r, nw):
+        """the analysed workflow is not modified and shares no dictionary with the result"""
+        a, b = o.workflow, nw.workflow
+        same = And(a.zeroed_wires == b.zeroed_wires, a.any_state_wires == b.any_state_wires, a.algo_wires == b.algo_wires)
+        if sym(a):
+            same = And(same, cnt_at(a.gate_types, G0K) == cnt_at(b.gate_types, G0K), z3.Select(a.gate_types.dom, G0K) == z3.Select(b.gate_types.dom, G0K))
+        else:
+            same = same and dict(a.gate_types) == dict(b.gate_types)
+        return And(same, r is not nw.workflow, r.gate_types is not nw.workflow.gate_types)
+
     def rfr_counts_post(o, r):
         if sym(o.workflow):
             return And(cnt_at(r.gate_types, G0K) == WSUM(cell["items"], z3.Length(cell["items"]), gs_term(o.gate_set), G0K), r.algo_wires == o.workflow.algo_wires)
@@ -755,7 +974,7 @@ def estimate_contracts(plan, tier):
             ls.modifies = ["gate_counts", "wire_manager"]
             if not wires:
                 rfr_cases.append(Case(f"gate-counts[{gl}]", params, native_call=native_rfr, native_gen=gen_rfr(gt.kind == "set"),
-                                      ensures=lambda o, r, nw: rfr_counts_post(o, r), raises=any_exc, axioms=rfr_post_axioms, loops={0: ls}))
+                                      ensures=lambda o, r, nw: And(rfr_counts_post(o, r), rfr_frame(o, r, nw)), raises=any_exc, axioms=rfr_post_axioms, loops={0: ls}))
             else:
                 rfr_cases.append(Case(f"wire-totals[{gl}]", params, native_call=native_rfr, native_gen=gen_rfr(gt.kind == "set"),
                                       requires=rfr_wires_pre,
@@ -772,6 +991,29 @@ def estimate_contracts(plan, tier):
         plan.add(ob)
 
     # ---- lemmas ----------------------------------------------------------------------------------------------------------------------------
+    # closed forms of k sequential rounds (induction steps over the grab_zeroed / free_wires contracts; k = 0 is the identity)
+    zz, aa, nn, kk = z3.Ints("z a n k")
+
+    def grab_(st, n_):
+        return (z3.If(n_ > st[0], 0, st[0] - n_), st[1] + n_)
+
+    def free_(st, n_):
+        return (st[0] + n_, st[1] - n_)
+    after_k_grabs = (z3.If(zz - nn * kk >= 0, zz - nn * kk, 0), aa + nn * kk)
+    g1 = grab_(after_k_grabs, nn)
+    plan.add(lemma("C47", "wire-repeat/alloc:k+1-rounds==grab(n*(k+1))", [zz, aa, nn, kk],
+                   z3.And(g1[0] == z3.If(zz - nn * (kk + 1) >= 0, zz - nn * (kk + 1), 0), g1[1] == aa + nn * (kk + 1)),
+                   assumptions=[zz >= 0, aa >= 0, nn >= 0, kk >= 0]))
+    f1 = free_((zz + nn * kk, aa - nn * kk), nn)
+    plan.add(lemma("C47", "wire-repeat/release:k+1-rounds==free(n*(k+1))-and-legal-iff-n*(k+1)<=any", [zz, aa, nn, kk],
+                   z3.And(f1[0] == zz + nn * (kk + 1), f1[1] == aa - nn * (kk + 1),
+                          z3.And(nn * kk <= aa, nn <= aa - nn * kk) == (nn * (kk + 1) <= aa)),
+                   assumptions=[zz >= 0, aa >= 0, nn >= 0, kk >= 0]))
+    b1 = free_(grab_((z3.If(zz >= nn, zz, nn), aa), nn), nn)
+    b0 = free_(grab_((zz, aa), nn), nn)
+    plan.add(lemma("C47", "wire-repeat/balanced:first-round-gives-max(z,n);later-rounds-change-nothing", [zz, aa, nn],
+                   z3.And(b0[0] == z3.If(zz >= nn, zz, nn), b0[1] == aa, b1[0] == z3.If(zz >= nn, zz, nn), b1[1] == aa),
+                   assumptions=[zz >= 0, aa >= 0, nn >= 0]))
     # repeating an operation multiplies its counts / a workflow's counts are the sum over its parts: consequences of the contract
     c0, c1, c2, sc1, sc2, x1, x2 = z3.Ints("c0 c1 c2 sc1 sc2 x1 x2")
     plan.add(lemma("C47", "update-contract/two-updates-add;repeat-multiplies", [c0, c1, c2, sc1, sc2, x1, x2],
@@ -821,6 +1063,13 @@ def misc_contracts(plan, tier):
         names = {op.name for op in o.self.gate_types} | set(r)
         return all(r.get(n, 0) == sum(c for op, c in o.self.gate_types.items() if op.name == n) for n in names)
 
+    def gc_frame(o, nw):
+        a, b = o.self.gate_types, nw.self.gate_types
+        if sym(o.self):
+            k = z3.Const("gck", w.sort_of(KEY_T))
+            return And(z3.Select(a.val, k) == z3.Select(b.val, k), z3.Select(a.dom, k) == z3.Select(b.dom, k))
+        return dict(a) == dict(b)
+
     def realize_cro(fields):
         import importlib
         UNIVERSE.setup(importlib.import_module("pennylane.estimator.estimate"))
@@ -838,7 +1087,7 @@ def misc_contracts(plan, tier):
                   types={"gate_counts": X.DMapT(Label)},
                   axioms=lambda v: nsum_def(items_of(v), v._i0, N0))
     fc = FnContract(w, "Resources.gate_counts", [
-        Case("by-name", {"self": RecT("Resources")}, native_gen=gen_gc, ensures=lambda o, r, nw: gc_post(o, r),
+        Case("by-name", {"self": RecT("Resources")}, native_gen=gen_gc, ensures=lambda o, r, nw: And(gc_post(o, r), gc_frame(o, nw)),
              axioms=post_axioms, loops={0: ls})])
     X.use_xinterp(fc)
     plan.fn_under_contract(fc.world.file, fc.qualname)
@@ -854,6 +1103,12 @@ def misc_contracts(plan, tier):
             return And(a.op_type == b.op_type, a.num_wires == b.num_wires, a.params == b.params)
         return a == b
 
+    def gc_operands_same(o, nw):
+        r = And(nw.self.count == o.self.count, same_obj(nw.self.gate, o.self.gate))
+        if hasattr(o, "other") and hasattr(o.other, "gate"):
+            r = And(r, nw.other.count == o.other.count, same_obj(nw.other.gate, o.other.gate))
+        return r
+
     def same_obj(a, b):
         if sym(a) or sym(b):
             return And(same_key(a, b), a._name == b._name)
@@ -862,19 +1117,21 @@ def misc_contracts(plan, tier):
         FnContract(w3, "GateCount.__mul__", [
             Case("other:int", {"self": GC, "other": Int},
                  ensures=lambda o, r, nw: And(r.count == o.self.count * o.other, same_obj(r.gate, o.self.gate),
-                                              nw.self.count == o.self.count)),
+                                              gc_operands_same(o, nw), r is not nw.self)),
             Case("other:float", {"self": GC, "other": Float}, raises={"NotImplementedError": lambda o: True})]),
         FnContract(w3, "GateCount.__add__", [
             Case("other:GateCount", {"self": GC, "other": GC},
                  ensures=lambda o, r, nw: And(r.count == o.self.count + o.other.count, same_obj(r.gate, o.self.gate),
-                                              same_key(o.self.gate, o.other.gate)),
+                                              same_key(o.self.gate, o.other.gate), gc_operands_same(o, nw), r is not nw.self, r is not nw.other),
                  raises={"NotImplementedError": lambda o: Not(same_key(o.self.gate, o.other.gate))},
-                 must_return=lambda o: same_key(o.self.gate, o.other.gate)),
+                 must_return=lambda o: same_key(o.self.gate, o.other.gate), exc_ensures=lambda exc, o, nw: gc_operands_same(o, nw)),
             Case("other:int", {"self": GC, "other": Int}, raises={"NotImplementedError": lambda o: True})]),
         FnContract(w3, "CompressedResourceOp.__eq__", [
             Case("other:CompressedResourceOp", {"self": CRO, "other": CRO}, ensures=lambda o, r, nw: r == same_key(o.self, o.other)),
             Case("other:int", {"self": CRO, "other": Int}, ensures=lambda o, r, nw: r == False)]),  # noqa: E712
     ):
+        for c in fc.cases:
+            c.standin_on_unsupported = True
         plan.fn_under_contract(fc.world.file, fc.qualname)
         for ob in obligations_for("C47", fc, tier):
             plan.add(ob)
@@ -913,11 +1170,20 @@ def build(tier, seed):
     plan.unverified = ["estimate() / _resources_from_qfunc.wrapper: queuing, singledispatch, algorithmic-wire count from the queue (with-statement)",
                        "_ops_to_compressed_reps, _map_to_resource_op; the concrete decompositions of the operator library and the default "
                        "adjoint/controlled/pow decompositions (apply_default_symbolic_decomp): additivity is proved for ANY decomposition",
-                       "exact wire numbers reached through nested decompositions (proved: never negative, totals never decrease, totals >= "
-                       "algorithmic wires and >= the pre-allocated pool); the rule `scale allocations unless they cancel` is not specified",
+                       "exact wire numbers through NESTED decompositions (proved for all inputs: never negative, totals never decrease, totals "
+                       ">= algorithmic wires and >= the pre-allocated pool).  The exact effect of `scalar` repetitions -- equal to the operation "
+                       "written out `scalar` times -- is proved size-bounded for decompositions that only allocate, only release, or give back "
+                       "what they borrowed (9 shapes, symbolic magnitudes, scalar >= 1); for MIXED decompositions with a non-zero net and for "
+                       "scalar == 0 the code does NOT equal the written-out workflow (see observations) and no contract is stated",
                        "ResourceOperator.__mul__/__matmul__/add_series/add_parallel (dict literal with an object key), Resources.__eq__, "
                        "total_gates, gate_breakdown, __str__"]
+    plan.size_bounds = ["_update_counts_from_compressed_res_op / wire-effect-of-repetition: 9 decomposition shapes of <= 4 actions (allocations, "
+                        "releases, one gate-set leaf), every magnitude, the scalar (>= 1) and the wire manager symbolic"]
     plan.notes = {"observations": [
+        "repetition rule vs the written-out workflow (script /tmp/c47_repetition_oddities.py): decomposition [Allocate(2), Deallocate(1)] with "
+        "scalar 3 gives (zeroed, any_state) = (3, 3), the same operation written out three times gives (1, 3) -- all allocations are made "
+        "before any release, so the zeroed pool is over-reported; a balanced decomposition [Allocate(5), Deallocate(5)] reached with "
+        "scalar 0 (GateCount(op, 0)) still allocates 5 wires although the operation is applied 0 times",
         "WireResourceManager.grab_zeroed / free_wires and Allocate / Deallocate accept negative sizes: grab_zeroed(-3) on (zeroed=1, any=0) "
         "gives any_state = -3 (script /tmp/c47_oddities.py); the property holds on the documented domain (sizes >= 0) only",
         "Resources.__eq__ distinguishes a stored zero count from a missing key: r.multiply_series(2) == r.add_series(r) is False for "
